@@ -137,3 +137,19 @@ def forget_modules(*names):
             if k == n or k.startswith(n + '.'):
                 del sys.modules[k]
     importlib.invalidate_caches()
+
+
+@contextlib.contextmanager
+def fresh_process_warning_filters():
+    """Warning filters as a freshly started CPython has them (no -W, no PYTHONWARNINGS): what a real
+    `python -m xdoctest` / `pytest` process sees.  An outer 'ignore' filter would stop the library from
+    *recording* the warnings a doctest emits (its own catch_warnings(record=True) inherits the filters)."""
+    import warnings
+    with warnings.catch_warnings():
+        warnings.resetwarnings()
+        warnings.filterwarnings('default', category=DeprecationWarning, module='__main__')
+        warnings.filterwarnings('ignore', category=DeprecationWarning, append=True)
+        warnings.filterwarnings('ignore', category=PendingDeprecationWarning, append=True)
+        warnings.filterwarnings('ignore', category=ImportWarning, append=True)
+        warnings.filterwarnings('ignore', category=ResourceWarning, append=True)
+        yield
